@@ -119,7 +119,7 @@ def run(res, tier):
     res.rule("C13.2 gather/scatter lambdas: per-particle arrays indexed by original index then value, per-leaf arrays by value then position, scatter inverse of the result gather, staging element types equal the tree's")
     res.rule("C13.3 construction facts of rebuild() (sorter type+args, split argument, emplace_back/parent/index calls with argument origins, conditions, level interval) equal the constructor's")
     res.rule("C13.4 rebuild clears both containers and re-creates every group through the constructors that zero-initialise (C06.1)")
-    rebuild = facts.fn("TbfTree::rebuild")
+    rebuild = tbf.expand_member_helpers(facts, facts.fn("TbfTree::rebuild"))
     # 2
     n = idxdomain.check_function(facts, rebuild, res, "C13.2.gather-scatter")
     res.floor("C13.2", n, 2, "copy statements in rebuild's leaf visitors")
@@ -138,7 +138,7 @@ def run(res, tier):
     ctors = [m for m in facts.methods_of("TbfTree") if m["kind"] == "CXXConstructor" and tbf.body(m) is not None and len(m["params"]) >= 2]
     if len(ctors) != 1:
         raise AnalysisBroken("expected one particle-taking TbfTree constructor, found %d" % len(ctors))
-    ctor = ctors[0]
+    ctor = tbf.expand_member_helpers(facts, ctors[0])
     cf = construction_facts(facts, ctor, ["param1"])
     # in rebuild the positions are the gathered `data` array
     fm = stages.FnModel(facts, rebuild)
